@@ -43,6 +43,97 @@ def load_total():
     return rows
 
 
+def summarise_bool(an):
+    """`true`-post of a bool function: facts over the lengths reachable from its reference parameters that hold
+    whenever the function can return true"""
+    b = an.b
+    if b.local_ty(0)["k"] != "bool":
+        return None
+    common = None
+    n = 0
+    for bi, st, v in an.ok_points:
+        if v is not None and v[0] == "lin" and v[1].is_const() and v[1].c == 0:
+            continue
+        n += 1
+        fs = set()
+        for f in st.facts:
+            if f.is_const():
+                continue
+            if all(re.match(r"^len\(\(\*_\d+\)[^()]*\)$", s0) for s0 in f.syms()):
+                fs.add(f)
+        common = fs if common is None else (common & fs)
+    if not n or not common:
+        return None
+    return {"true_facts": sorted(common, key=repr)}
+
+
+def apply_ok(an, st, cs):
+    """state after taking the Ok edge of the call whose result is passed through as this function's result"""
+    info = an.pending.get(cs, {})
+    st2 = st.copy()
+    for f in info.get("variant_facts", {}).get(0, []):
+        st2.facts.add(f)
+    for (k, val) in info.get("variant_stores", {}).get(0, []):
+        st2.store[k] = val
+    return st2
+
+
+def summarise_writer(an):
+    """Ok-post of a function writing to a `&mut T` writer: the writer position does not move backwards"""
+    b = an.b
+    wk = None
+    for i in range(1, b.argc + 1):
+        t = b.local_ty(i)
+        if t["k"] == "ref" and t["mut"] and b.ty(t["t"])["k"] == "param":
+            wk = "(*_%d)" % i
+    if wk is None:
+        return None
+    ret_t = b.local_ty(0)
+    is_result = ret_t["k"] == "adt" and ret_t["name"].endswith("::Result")
+    entry = Lin.sym("wpos%s@entry" % wk)
+    points = []
+    if is_result:
+        for bi, st, v in an.ok_points:
+            if v is None:
+                return None
+            if v[0] == "adt" and v[2] == "Ok":
+                points.append(st)
+            elif v[0] == "adt" and v[2] == "Err":
+                continue
+            elif v[0] == "callres":
+                points.append(apply_ok(an, st, v[1]))
+            else:
+                return None
+    else:
+        points = [st for bi, st in an.ret_states]
+    if not points:
+        return None
+    best = None
+    for st in points:
+        out = st.store.get("wpos:" + wk)
+        if out is None or out[0] != "lin":
+            return None
+        m_here = None
+        for m in (12, 10, 4, 3, 2, 1, 0):
+            if entails(st.facts, an.iv, entry + m - out[1], an.depth):
+                m_here = m
+                break
+        if m_here is None:
+            return None
+        best = m_here if best is None else min(best, m_here)
+    return {"w_adv_min": best}
+
+
+def summarise_iter(an):
+    """functions that return `<field of a reference parameter>.iter()`"""
+    vals = [v for bi, st, v in an.ok_points]
+    if not vals or any(v is None or v[0] not in ("iter", "enumiter") for v in vals):
+        return None
+    if len(set(vals)) != 1 or not re.match(r"^\(\*_\d+\)", vals[0][1]):
+        return None
+    return {"ret_iter": (vals[0][0], vals[0][1])}
+
+
 def summarise(an):
     """Ok-post of a cursor-style function: facts over (cursor_in, cursor_out, len(data))"""
     b = an.b
@@ -55,7 +146,7 @@ def summarise(an):
         if t["k"] == "ref" and not t["mut"] and b.ty(t["t"])["k"] == "slice" and data is None:
             data = "_%d" % i
     if cursor is None:
-        return None
+        return summarise_writer(an)
     ret_t = b.local_ty(0)
     is_result = ret_t["k"] == "adt" and ret_t["name"].endswith("::Result")
     entry = Lin.sym("%s@entry" % cursor)
@@ -74,11 +165,7 @@ def summarise(an):
                 continue
             elif v[0] == "callres":
                 # pass-through of a callee's result (tail call / Result::map): Ok-facts of that call apply
-                info = an.pending.get(v[1], {})
-                st2 = st.copy()
-                for f in info.get("variant_facts", {}).get(0, []):
-                    st2.facts.add(f)
-                points.append((st2, None))
+                points.append((apply_ok(an, st, v[1]), None))
             else:
                 return {"adv_min": None, "out_le_len": False, "ok_points": 0, "unknown_ret": True}
     else:
@@ -129,12 +216,22 @@ class Whole:
         for bid in order:
             b = prog.bodies[bid]
             try:
-                an = zone.Analyzer(b, self.summaries, self.cat, depth).run()
+                an = zone.Analyzer(b, self.summaries, self.cat, depth)
+                disp = {}
+                for (y, bi, why) in self.cg.edges.get(bid, []):
+                    if why.startswith("instantiated") or why in ("cha", "default-method"):
+                        disp.setdefault(bi, []).append(y)
+                an.dispatch = disp
+                an.run()
             except RecursionError as e:  # pragma: no cover
                 self.errors[bid] = repr(e)
                 continue
             self.results[bid] = an
             s = summarise(an)
+            if s is None:
+                s = summarise_bool(an)
+            if s is None:
+                s = summarise_iter(an)
             if s is not None:
                 self.summaries[bid] = s
             self._preconditions(b, an)
